@@ -134,6 +134,8 @@ def gen_case(rng, tier, est=None, seeded=None):
     else:
         backends = ["np", "da"]
     chunks = random_composition(rng, n_items, rng.randint(1, min(4, n_items)))
+    if est == "wccn" and nc > 16:
+        chunks = random_composition(rng, n_items, rng.randint(1, 2))
     # the history
     ops = []
     n_fits = rng.randint(3, 7)
